@@ -178,6 +178,54 @@ reg(
   "Deep convex penetrations and near-coincident sphere/capsule axes get the frame check only; heuristic contacts identical to MuJoCo's are accepted; convex tolerances 4e-3/1e-2; one mesh-mesh GJK/EPA inconsistency is a KNOWN-FINDING.",
 )
 
+reg(
+  "C07",
+  "property-based differential testing (Hypothesis): every sensor slice and Data.energy against mujoco.mj_forward on the identical float32 state",
+  "Articulated models with sites of all zone shapes, body/world cameras with every intrinsics form, tendons, actuators, limits, piles and static scenery, carrying 1-12 sensors drawn over all 47 supported "
+  "sensor types and all objtype x reftype frame combinations (moving, mocap and static references), with cutoffs, energy/gravity/spring flags, normalised and un-normalised states, 1-2 worlds; contact-sensor "
+  "slots compared as multisets where order is free.",
+  "Solver-dependent sensors are judged only in worlds whose contacts/rows match MuJoCo and whose qacc/efc_force agree; discontinuous sensors (rangefinder silhouettes, zone boundaries, distance at cutoff) "
+  "are skipped only when MuJoCo's own value flips under a 1e-3 perturbation; no delays/intervals (C30); several recorded deviations are KNOWN-FINDINGs.",
+)
+reg(
+  "C21",
+  "property-based testing (Hypothesis) with a float64 linear-algebra oracle: per-block backward-error residuals of factor/solve/multiply on the float32 matrices MJWarp holds",
+  "Forests of kinematic trees with forced dof counts 1..70 (chain, branched, lone free body; free/ball/hinge/slide mixtures, armature, mass span up to 1e3) hitting every layout of m_block_layout "
+  "(compact, scalar Cholesky, tile Cholesky, sparse LDL) and mixtures, 1-3 worlds with different states and right-hand sides: M vs MuJoCo and SPD, factor_m/solve_m, mul_m, factor_solve_i on the Euler and "
+  "implicitfast matrices, factor_solve_lu on the implicit matrix, one constraint-free step per integrator.",
+  "Normwise residual per tree block (tolerance 3e-6, observed 1e-7); SPD asserted for cond <= 1e6; whether the implicit matrices are the right derivatives is C27's subject.",
+)
+reg(
+  "C22",
+  "property-based testing (Hypothesis): MuJoCo C differential + float64 finite-difference oracles + dense-vs-sparse metamorphic relation",
+  "Rich random models (all constraint kinds, wrapped and pulley tendons, five transmission types) compiled with dense and sparse Jacobians, 1-2 worlds: every row satisfies J qvel = efc.vel; mjw.jac at "
+  "random points/bodies equals mj_jac and finite differences of point position and orientation; ten_J and actuator_moment equal MuJoCo and finite differences of lengths; both builds give the same rows, qacc, forces and next state.",
+  "Length finite differences are demanded only where MuJoCo's own Jacobian is a length derivative; solver outputs compared only for converged, well-conditioned problems (cond <= 1e4) at 3e-3 because MJWarp clamps the solver tolerance to 1e-6.",
+)
+reg(
+  "C27",
+  "property-based differential testing (Hypothesis) against two oracles: MuJoCo C's qDeriv and float64 central finite differences of MuJoCo's smooth forces",
+  "Random articulated models with joint/tendon damping (linear and polynomial), box and ellipsoid fluid forces and velocity-dependent actuators (affine gain/bias, activation-dependent gains, actearly, "
+  "ctrl/force clamps) under implicitfast and implicit, 1-2 worlds: deriv_smooth_vel, the RNE derivative and the matrix mjw.implicit actually factorises (recovered from its LU factors), entry-wise on the stored patterns.",
+  "An entry passes if it matches either oracle where the two disagree; tolerance 1e-4*sqrt(r_i r_j) plus the float32 floor; one KNOWN-FINDING (implicit fluid upper triangle) is recognised and compensated.",
+)
+reg(
+  "C30",
+  "property-based model-based testing (Hypothesis, generated call histories) in lock-step with one MuJoCo MjData per world: every history buffer, applied control, sensordata and read/init call",
+  "Small contact-free models with 1-3 delayed/buffered actuators and 1-4 delayed and/or interval sensors of every stage and dimension, three integrators, 1-3 worlds with different controls, started from "
+  "make_data, put_data (fresh and stepped) or reset_data (full/partial), stepped 1-40 times with piecewise-random controls interleaved with read_ctrl/read_sensor queries and init_*_history calls: cursor, user slot, "
+  "timestamps and values of every buffer plus time, actuator_force, act and sensordata equal MuJoCo's.",
+  "MuJoCo is the only oracle; decisions on float-time boundaries (interval trigger within 2e-6, reads within 3e-6 of a timestamp) are boundary-skipped; recorded values of delayed derived sensors under RK4 are not compared (MuJoCo samples them from the last RK stage).",
+)
+reg(
+  "C31",
+  "property-based round-trip and differential testing (Hypothesis): put_model/put_data/get_data_into field-by-field by introspection, plus one-at-a-time unsupported features that must be rejected",
+  "Random full-grammar models (and hand-written flex/hfield/material models), optionally with batch_sizes, must reproduce every same-named MuJoCo field after float32 rounding; 28 unsupported features each "
+  "switched on alone must raise; MjData states after random steps go through put_data(nworld 1-3) -> get_data_into per world and must come back exactly (contact order, efc rows in MuJoCo order, efc_address, island fields); "
+  "after a step with per-world differences get_data_into(w) must equal world w's own arrays.",
+  "Skip list: opt/stat compared member-wise, Option.tolerance against the documented clamp; exact after float32 rounding except re-factored qLD/qLDiagInv (1e-5).",
+)
+
 NOT_APPLICABLE = {}
 
 
